@@ -117,3 +117,20 @@ class ListLike(list):
 
 class DictLike(dict):
     """dict subclass: reduce with dictitems -> SETITEMS on a non-literal"""
+
+
+class Outer:
+    """nested class: pickled by qualified name (Outer.Inner) at protocol >= 4"""
+
+    class Inner:
+        def __init__(self, v=None):
+            self.v = v
+
+        def __eq__(self, o):
+            return type(o) is type(self) and o.__dict__ == self.__dict__
+
+        def __hash__(self):
+            return 19
+
+        def __repr__(self):
+            return f"Outer.Inner({self.__dict__!r})"
